@@ -8,9 +8,11 @@ Driver for C11.  One request per line, `k=v` fields separated by spaces:
   op=add|sub A=<val> DUR=<µs> [DATE=1]      A ± dayTimeDuration
   op=addym A=<val> MONTHS=<int> [DATE=1]    (MONTHS already signed)
   op=diff  A=<val> B=<val>
-  op=cmp   A=<val> B=<val>                  answers lt,le,eq,gt,ge as 5 bits
+  op=cmp   A=<val> B=<val> [ITZ=<minutes>]  answers lt,le,eq,gt,ge as 5 bits; ITZ = implicit timezone of
+                                           the dynamic context; extra flag inN=1 iff inside the trigger of F11n
   op=adjust A=<val> TZ=<minutes|n>          adjust-dateTime-to-timezone
   op=adjustdate A=<val> TZ=<minutes|n>      adjust-date-to-timezone
+  op=comp  A=<val> V=<10|11>               year;month;day;hours;minutes;seconds(µs);timezone
   op=lex   V=<10|11> Y=<lexical year>       internal year and its string/year-from form back
   op=pyord N=<ordinal>                      CPython date.fromordinal / toordinal (trusted component)
   op=durcmp M1= S1= M2= S2=                 duration comparison (lt,le,gt,ge bits; µs)
@@ -131,15 +133,18 @@ def answer (line : String) : String :=
       out (showR toString (diff a b)) (toString (EPV.Timeline.diff sa sb)) inK
     | _, _ => "bad-args"
   | "cmp" =>
-    match getA, getB with
-    | some a, some b =>
-      let ia := (absV a).instantC; let ib := (absV b).instantC
+    match getA, getB, parseTz (f "ITZ") with
+    | some a, some b, itz? =>
+      -- ITZ = implicit timezone of the dynamic context (absent / n: none, the library's UTC default)
+      let itz : Int := match itz? with | some (some z) => z | _ => 0
+      let ia := (absV a).instantI itz; let ib := (absV b).instantI itz
       let ops := [Cmp.lt, Cmp.le, Cmp.eq, Cmp.gt, Cmp.ge]
       let m := bits (ops.map fun o => compare o a b)
       let s := bits (ops.map fun o => o.op ia ib)
-      let inK := decide (a.year ≠ b.year ∧ (a.year - b.year).natAbs ≤ 2) && !(tdOk ia && tdOk ib)
-      out m s inK
-    | _, _ => "bad-args"
+      let inK := decide (a.year ≠ b.year ∧ (a.year - b.year).natAbs ≤ 2) && !(tdOk (absV a).instantC && tdOk (absV b).instantC)
+      let inN := !(decide (ImplicitTzIrrelevant a b itz))
+      out m s inK ++ s!" inN={b01 inN}"
+    | _, _, _ => "bad-args"
   | "adjust" =>
     match getA, parseTz (f "TZ") with
     | some a, some tz =>
@@ -160,6 +165,13 @@ def answer (line : String) : String :=
         | _, _ => false
       out (showR showDT (adjustDate a tz)) (showVal spec) inK
     | _, _ => "bad-args"
+  | "comp" =>
+    match getA with
+    | some a =>
+      let v11 := f "V" == "11"
+      let sh (l : List Int) (tz : Option Int) : String := ";".intercalate (l.map toString) ++ ";" ++ showTz tz
+      out (sh (components v11 a) a.tz) (sh (EPV.Timeline.components v11 (absV a)) (absV a).tz) false
+    | none => "bad-val"
   | "lex" =>
     match int? (f "Y") with
     | some y =>
